@@ -299,11 +299,13 @@ ITEMS = location_types() + budget_types() + error_types() + [
          canaries=['C05:consumes_exactly_one_scalar']),
     dict(src=D, path='impl YamlDeserializer/fn expect_seq_start', props=['C05', 'C01'],
          ensures=[('C05:consumes_exactly_one_sequence_start', '''r is Ok ==> old(self).ev.rest().len() > 0
-                && old(self).ev.rest()[0] is SeqStart && final(self).ev.rest() == old(self).ev.rest().skip(1)''')],
+                && old(self).ev.rest()[0] is SeqStart && final(self).ev.rest() == old(self).ev.rest().skip(1)'''),
+                  ('config_kept', 'final(self).cfg == old(self).cfg')],
          canaries=['C05:consumes_exactly_one_sequence_start']),
     dict(src=D, path='impl YamlDeserializer/fn expect_map_start', props=['C05', 'C01'],
          ensures=[('C05:consumes_exactly_one_mapping_start', '''r is Ok ==> old(self).ev.rest().len() > 0
-                && old(self).ev.rest()[0] is MapStart && final(self).ev.rest() == old(self).ev.rest().skip(1)''')],
+                && old(self).ev.rest()[0] is MapStart && final(self).ev.rest() == old(self).ev.rest().skip(1)'''),
+                  ('config_kept', 'final(self).cfg == old(self).cfg')],
          canaries=['C05:consumes_exactly_one_mapping_start']),
     dict(src=D, path='impl YamlDeserializer/fn peek_anchor_id', props=['C05', 'C01'],
          ensures=[('peeks_without_consuming', '''r is Ok ==> final(self).ev.rest() == old(self).ev.rest() && r->Ok_0 == (
